@@ -56,8 +56,13 @@ def strip_lt(n):
 
 @st.composite
 def _case(draw):
-    table = draw(progs.tables())
-    scan = draw(progs.scans(table))
+    table = draw(progs.tables(lead_blank=True))
+    if draw(st.integers(0, 3)) == 2:
+        # header-text-safe programs may scan from line 0 (the header row is a data line too)
+        table = progs.text_safe(table, draw)
+        scan = draw(progs.scans(table, from_data=False))
+    else:
+        scan = draw(progs.scans(table))
     prog = draw(progs.programs(
         table, kinds=("assign", "assign", "assign", "se", "se", "se", "when", "b", "every", "first"),
         or_mode=False))
